@@ -182,8 +182,8 @@ impl Prop for C20 {
     }
     fn rule(&self) -> String {
         format!(
-            "The driver crate harness/c20drv is built from the current tree under these configurations: {}. Each generated case (two Decimal representations, an integer, n, mode, a string) is evaluated by persistent driver processes of every build for ~330 public operations \
-             (+ - * / % and their checked, rounded and compound-assignment forms, every integer-operand form of all 9 integer types on either side, round, quantize, unary ops, comparisons, hashing, ratio, Display/Debug/format, from_str, serde, float and integer conversions, rkyv). \
+            "The driver crate harness/c20drv is built from the current tree under these configurations: {}. Each generated case (two Decimal representations, an integer, n, mode, a string) is evaluated by persistent driver processes of every build for ~340 public operations \
+             (+ - * / % and their checked, rounded and compound-assignment forms, every integer-operand form of all 9 integer types on either side, round, quantize, unary ops, all comparison operators, min/max/clamp/sort, hashing, ratio, Display/Debug/format, from_str, serde, float and integer conversions, rkyv). \
              Cases come from the union of the C01-C06 and C10 generators (all overflow-boundary, tie and wide-path classes). Oracle: (1) differential - every build prints the identical outcome (value / None / Err kind / panic; panic messages excluded); \
              (2) the reference build's outcomes for + - * / % checked_* mul_rounded div_rounded round checked_round and integer products are compared with the exact oracle. \
              Non-trivial: some operation panics / returns None in the reference build or its exact result lies within 2^8 of +-2^127. Distinct: hash of the case.",
